@@ -299,7 +299,10 @@ def replay(path):
 
 
 def selftest():
-    """Each deviation of the pair model must violate the invariant it is about."""
+    """(i) each deviation of the pair model violates the invariant it is about;
+    (ii) a recorded good trace with a corrupted key hash / role / delivery verdict is flagged."""
+    ck = vlib.Check(PID + "-selftest", "quick")
+    vlib.OUT = ck.dir
     ok = True
     for dev, inv in {"SdesBeforeLocalAnswer": "NeverFailed", "EqualRoles": "RolesComplementary"}.items():
         cfg = os.path.join(vlib.SPEC, f"MC_LifecyclePair_self_{dev}.gen.cfg")
@@ -309,4 +312,47 @@ def selftest():
         hit = inv in " ".join(res["errors"])
         print(f"selftest: deviation {dev} violates {inv}: {hit}")
         ok &= hit
+    vlib.build_harness(["life"])
+    sc = {"id": 1, "kind": "c10", "cfg": dict(DEFAULT, media=["dc", "audio"]), "connect_s": 15}
+    runs = run_harness(ck, [sc], "selftest", 1)
+    flat = lc.flatten_c10(runs[0])
+    acc, _i, _r, vd = validate(ck, flat, "self")
+    clean = acc and not [v for v in vd.get(1, []) if v[0] != "EXT"]
+    print("selftest: unmodified trace accepted without broken rules:", clean)
+    ok &= clean
+
+    def mutated(fn):
+        f2 = [dict(r) for r in flat]
+        fn(f2)
+        acc2, _i2, _r2, vd2 = validate(ck, f2, "self")
+        return acc2, {v[0] for v in vd2.get(1, [])}
+
+    def swap_key(f2):
+        i = max(i for i, r in enumerate(f2) if r["t"] == "srtp_keys")
+        f2[i] = dict(f2[i], x=f2[i]["reason"], reason=f2[i]["x"])
+    _a, rules = mutated(swap_key)
+    print("selftest: swapped tx/rx key hash on one side is flagged C10.Keys:", "C10.Keys" in rules)
+    ok &= "C10.Keys" in rules
+
+    def same_role(f2):
+        for i, r in enumerate(f2):
+            if r["t"] == "start_transport":
+                f2[i] = dict(r, site="client")
+    _a, rules = mutated(same_role)
+    print("selftest: equal DTLS roles are flagged C10.Roles:", "C10.Roles" in rules)
+    ok &= "C10.Roles" in rules
+
+    def lost_rtp(f2):
+        i = next(i for i, r in enumerate(f2) if r["t"] == "rtp_delivery")
+        f2[i] = dict(f2[i], b1=False)
+    _a, rules = mutated(lost_rtp)
+    print("selftest: an undelivered RTP packet is flagged C10.RtpDelivery:", "C10.RtpDelivery" in rules)
+    ok &= "C10.RtpDelivery" in rules
+
+    def drop_sig(f2):
+        i = next(i for i, r in enumerate(f2) if r["t"] == "sig" and r["site"] == "remote.offer")
+        del f2[i]
+    acc2, rules = mutated(drop_sig)
+    print("selftest: dropping the set_remote_description(offer) commit event is rejected:", not acc2)
+    ok &= not acc2
     raise SystemExit(0 if ok else 2)
